@@ -343,7 +343,7 @@ PROPS["C13"] = {
     "level_text": "After every op (quick: every 3rd and the last) every file's answers from the long-lived database are compared with a brand-new database loaded with the same texts under the same "
                   "FileIds: diagnostics as a sorted multiset (code, severity, range, message, related), symbols canonicalised to (qualified name, kind, type name, range, imported?), the type name of "
                   "the expression at every 3rd offset, and analyze() summaries; every query batch is issued twice (idempotence). Raw SymbolId/TypeId numbers are never compared.",
-    "level_note": "The fresh database is loaded in ascending FileId order. The LSP document store above the database is covered by C14.",
+    "level_note": "Eight file slots: five roles (functions, program, FB, types, configuration) and three second providers of the same global names with other signatures; the initial project is loaded in random id order and each comparison also checks that a brand-new database loaded in descending order answers like the one loaded ascending. The fresh database is loaded in ascending FileId order. The LSP document store above the database is covered by C14.",
     "assumptions": ["TRUST_HIR_SALSA_EVENT_METRICS=1 only enables counters; it does not change query results"],
     "design_ref": "DESIGN.md section 8 (as built; plan in section 3), C13",
 }
